@@ -307,6 +307,14 @@ pub assume_specification[ std::time::Duration::from_secs ](s: u64) -> (d: std::t
 /// ASSUMPTION: binding a socket and building an address from (ip, port) have no precondition (I/O errors are an `Err`)
 pub assume_specification<A: std::net::ToSocketAddrs>[ std::net::UdpSocket::bind::<A> ](a: A) -> (r: Result<std::net::UdpSocket, std::io::Error>);
 pub assume_specification<I: Into<std::net::IpAddr>>[ <std::net::SocketAddr as From<(I, u16)>>::from ](a: (I, u16)) -> (r: std::net::SocketAddr);
+/// ASSUMPTION: `UdpSocket::send` / `send_to` have no precondition (errors are an `Err`)
+pub assume_specification[ std::net::UdpSocket::send ](s: &std::net::UdpSocket, buf: &[u8]) -> (r: Result<usize, std::io::Error>);
+pub assume_specification<A: std::net::ToSocketAddrs>[ std::net::UdpSocket::send_to::<A> ](s: &std::net::UdpSocket, buf: &[u8], a: A) -> (r: Result<usize, std::io::Error>);
+/// ASSUMPTION: `UdpSocket::recv` / `recv_from` write one datagram (truncated to the buffer) and report its length
+pub assume_specification[ std::net::UdpSocket::recv ](s: &std::net::UdpSocket, buf: &mut [u8]) -> (r: Result<usize, std::io::Error>)
+    ensures final(buf)@.len() == old(buf)@.len(), r is Ok ==> r->Ok_0 <= old(buf)@.len();
+pub assume_specification[ std::net::UdpSocket::recv_from ](s: &std::net::UdpSocket, buf: &mut [u8]) -> (r: Result<(usize, std::net::SocketAddr), std::io::Error>)
+    ensures final(buf)@.len() == old(buf)@.len(), r is Ok ==> (r->Ok_0).0 <= old(buf)@.len();
 pub assume_specification[ std::net::UdpSocket::local_addr ](s: &std::net::UdpSocket) -> (r: Result<std::net::SocketAddr, std::io::Error>);
 
 pub assume_specification<T>[ std::sync::mpsc::Sender::<T>::send ](s: &std::sync::mpsc::Sender<T>, t: T) -> (r: Result<(), std::sync::mpsc::SendError<T>>);
